@@ -311,10 +311,72 @@ def _check_main(run, P):
     from .c01 import _alias
     _alias(run, "C08.mapper", "C02.readsets", lambda: c08._mapper_config(run, P))
 
+    run.rule("C02.alias", "dependencies are recorded by name, so no two names may come to "
+             "hold one mutable array: where element assignment changes an array in place, "
+             "a whole-variable assignment stores a copy (both Python back ends)", minimum=2)
+    run.do(_alias_rule, run, P)
+
     f = edges(run, P)
     run.do(_condition, run, P, f)
     run.do(_guard, run, P)
     run.do(_fresh, run, P)
+
+
+COPIES = ("copy", "deepcopy", "array", "copy.copy", "copy.deepcopy", "np.array", "numpy.array",
+          "np.copy", "numpy.copy")
+
+
+def _alias_rule(run, P):
+    why = ("after `b <- a` both names hold the same ndarray: a later `a[0] <- 5` also changes b, "
+           "but the builder records no edge between that write and the readers of b, so "
+           "`c <- b[0]` gives 1 or 5 depending on the admissible order chosen "
+           "(a=array(3); a[0]=1; b=a; c=b[0]; a[0]=5)")
+    # interpreter
+    f = P.func("dagrt.exec_numpy.NumpyInterpreter.exec_Assign")
+    st = f.params[1]
+    whole, inplace = [], []
+    for s_ in ast.walk(f.node):
+        if not isinstance(s_, ast.Assign) or len(s_.targets) != 1:
+            continue
+        t = s_.targets[0]
+        if isinstance(t, ast.Subscript) and dotted(t.value) == "self.context" \
+                and norm(t.slice) == f"{st}.assignee":
+            whole.append(s_)
+        if isinstance(t, ast.Subscript) and isinstance(t.value, ast.Subscript) \
+                and dotted(t.value.value) == "self.context":
+            inplace.append(s_)
+    if not whole:
+        raise AnalysisError("exec_Assign: whole-variable store not found")
+    mv = P.func("dagrt.expression.EvaluationMapper.map_variable")
+    fresh_lookup = all(
+        isinstance(r.value, ast.Call) and (dotted(r.value.func) or "").split(".")[-1] in ("copy", "deepcopy")
+        for r in ast.walk(mv.node) if isinstance(r, ast.Return) and r.value is not None
+        and "context" in ast.unparse(r.value))
+
+    def copied(v):
+        return isinstance(v, ast.Call) and (
+            (dotted(v.func) or "") in COPIES or (isinstance(v.func, ast.Attribute) and v.func.attr == "copy")
+            or "copy" in (dotted(v.func) or "").lower())
+
+    ok = not inplace or fresh_lookup or all(copied(s_.value) for s_ in whole)
+    run.ob("C02.alias", f, whole[0], ok,
+           construct="exec_Assign: the value stored under the assignee is not the object held "
+                     "under another name (element assignment works in place)",
+           why=why)
+    # generated Python
+    g = P.func("dagrt.codegen.python.CodeGenerator.emit_inst_Assign")
+    tmpl = [x for x in ast.walk(g.node) if isinstance(x, ast.Call) and isinstance(x.func, ast.Attribute)
+            and x.func.attr == "format" and isinstance(x.func.value, ast.Constant)
+            and isinstance(x.func.value.value, str) and "=" in x.func.value.value]
+    if not tmpl:
+        raise AnalysisError("emit_inst_Assign: assignment template not found")
+    text = tmpl[0].func.value.value
+    rhs = text.split("=", 1)[1]
+    ok = "copy" in rhs or any("copy" in ast.unparse(k.value) for k in tmpl[0].keywords)
+    run.ob("C02.alias", g, tmpl[0], ok,
+           construct=f"emit_inst_Assign: the emitted assignment {text!r} stores a copy of an array "
+                     f"value (element assignment is emitted as in-place subscripting)",
+           why=why)
 
 
 def edges(run, P):
